@@ -12,8 +12,8 @@ function type, tuple).  Each module goes through the round-trip oracle of the pr
 the skeleton leg.
 
 spec = {"ops": [OP…]},  OP = {"attrs": {k: A}, "props": {k: A}, "res": [A…], "use": bool,
-"args": [A…]},  A = ["u", name, is_type, is_opaque, body] | ["arr", [A…]] | ["dict", {k: A}] |
-["str", s] | ["int", n] | ["fn", [A…], [A…]] | ["tuple", [A…]] | ["i32"]
+"args": [A…], "inner": {k: A}},  A = ["u", name, is_type, is_opaque, body] | ["arr", [A…]] | ["dict", {k: A}] |
+["str", s] | ["int", n] | ["fn", [A…], [A…]] | ["tuple", [A…]] | ["i32"] | ["b", recipe of c06_values]
 """
 from __future__ import annotations
 
@@ -48,13 +48,17 @@ def build_attr(a: list) -> Any:
         return TupleType([build_attr(x) for x in a[1]])
     if k == "i32":
         return i32
+    if k == "b":  # a builtin payload given as a recipe of props/c06_values.py (boundary-value catalogue)
+        from props import c06_values as V
+
+        return V.build(a[1])
     raise ValueError(a)
 
 
 def build(spec: dict[str, Any]):
     """a `builtin.module` of unregistered operations `u.op`; an operation with `args` has a region
     whose entry block has arguments of these types, an operation with `use` takes the results of
-    the previous operation as operands"""
+    the previous operation as operands; `inner` = attributes of the operation inside that region"""
     from xdsl.dialects.builtin import ModuleOp, UnregisteredOp
     from xdsl.ir import Block, Region
 
@@ -65,7 +69,8 @@ def build(spec: dict[str, Any]):
         regions = []
         if o.get("args"):
             blk = Block(arg_types=[build_attr(t) for t in o["args"]])
-            blk.add_op(cls.create(operands=list(blk.args)))
+            blk.add_op(cls.create(operands=list(blk.args),
+                                  attributes={k: build_attr(a) for k, a in o.get("inner", {}).items()}))
             regions.append(Region(blk))
         op = cls.create(
             operands=prev if o.get("use") else [],
@@ -90,7 +95,11 @@ STR_CORE = ['\\"', "\\\\", "]", ">", "a"]
 BUILTIN_TEXTS = ["i32", "42 : i64", "dense<[1, 2]> : tensor<2xi32>", "affine_map<(d0) -> (d0)>", "[1, 2]",
                  "{k = 1 : i32}", "(i32) -> i32", "unit", "-1", "1.5 : f32", "@sym", "tensor<2x?xf32>", "none"]
 IDENTS = ["a", "key", "b_1", "x.y", "0x1F", "7"]
-SEPS = [", ", " ", ",", " : ", " = ", " -> ", "x", ", "]
+# line breaks and tabs are part of the verbatim body as well (the printer must not re-indent them)
+SEPS = [", ", " ", ",", " : ", " = ", " -> ", "x", ", ", ",\n  ", "\n", " \t", ",\n\n"]
+# bodies that span lines (deterministic part of the family)
+MULTILINE_BODIES = ["a,\nb", "a,\n  b", "a\n", "\na", "[1,\n 2]", '"s",\n\n  {k = "v"}', "a,\r\nb", "a\tb", "a,\n\tb",
+                    "(\n)", "a \n b\n  c\n    d", '"x" ,\n"]"']
 BRACKETS = ["()", "[]", "{}", "<>"]
 
 
@@ -181,17 +190,23 @@ def unreg(rng, is_type: bool, depth: int = 2) -> list:
     return ["u", "d.a" if not is_type else "d.t", int(is_type), 0, body]
 
 
-def random_spec(rng, n_ops: int) -> dict[str, Any]:
+def random_spec(rng, n_ops: int, payloads: list | None = None) -> dict[str, Any]:
+    """`payloads`: recipes of builtin attributes (boundary-value catalogue) placed next to the
+    unregistered ones inside the containers"""
     ops = []
+
+    def payload() -> list:
+        return ["b", rng.choice(payloads)] if payloads else ["int", 7]
+
     for k in range(n_ops):
         o: dict[str, Any] = {"attrs": {}, "props": {}, "res": [], "args": []}
         for j in range(rng.randint(1, 3)):
             a = unreg(rng, rng.random() < 0.3)
             place = rng.random()
             if place < 0.2:
-                a = ["arr", [["int", j], a, unreg(rng, False, 1)]]
+                a = ["arr", [["int", j], a, payload(), unreg(rng, False, 1)]]
             elif place < 0.35:
-                a = ["dict", {"k": a, "after": ["str", "still \"here\""]}]
+                a = ["dict", {"k": a, "after": ["str", "still \"here\""], "pay": payload()}]
             elif place < 0.45:
                 t = unreg(rng, True, 1)
                 a = ["fn", [t, ["i32"]], [t]]
@@ -232,6 +247,13 @@ def spec_of_bodies(bodies: list[str], is_type: bool) -> dict[str, Any]:
     return {"ops": ops}
 
 
+def nested_spec(bodies: list[str]) -> dict[str, Any]:
+    """the bodies on an operation inside the region of another one (`args` gives the outer operation
+    a region; its inner operation carries the types as block arguments), as attribute and as type"""
+    return {"ops": [{"inner": {f"a{i}": ["u", "d.a", 0, 0, b] for i, b in enumerate(bodies)},
+                     "args": [["u", "d.t", 1, 0, b] for b in bodies]}]}
+
+
 def sub_specs(spec: dict[str, Any]):
     """smaller candidates of a failing spec: single operations, then single entries of them"""
     for o in spec["ops"]:
@@ -244,3 +266,5 @@ def sub_specs(spec: dict[str, Any]):
             yield {"ops": [{"res": [t]}]}
         for t in o.get("args", []):
             yield {"ops": [{"args": [t]}]}
+        for k, a in o.get("inner", {}).items():
+            yield {"ops": [{"args": [["i32"]], "inner": {k: a}}]}
